@@ -41,6 +41,7 @@ def check(repo, col, tier):
     col.rule("R-C11-loc", "loc keeps scope and uses per-branch compartment counts", 3)
     _confine(repo, col)
     _filter(repo, col)
+    select_expansion(repo, col, "R-C11-filter")
     _index(repo, col)
     _rerank(repo, col)
     _edges(repo, col)
@@ -1378,3 +1379,41 @@ def derived_from_receiver(repo, col, R):
                       f"(`cell.scope('global').HH.comp(i)` counts locally again; `net.select(edges=[2]).HH` sees every synapse between those compartments)",
                       node=x.node if x.node is not None else fi.node)
     col.info["view_derivations_checked"] = n
+
+
+def select_expansion(repo, col, R):
+    """Module.select hands the given row labels to the new view as they are -- with repetitions, in the given order (the connectivity
+    builders rely on `select(nodes=[0, 0, 2, 2]).nodes` having four rows).  The only index that is replaced by `everything in view` is
+    the string 'all'; an index that merely has as many entries as the view has rows is not 'all'."""
+    fi = repo.method("Module", "select")
+    ex = idx.expander(repo, fi)
+    ctor = None
+    for t_ in list(ex.returns) + [s_.base for s_ in ex.stores if s_.base is not None] + [s_.value for s_ in ex.stores if s_.value is not None]:
+        ctor = ctor or (T.find(t_, lambda x: x.op == "call" and x.name == "View" and len(x.args) == 3) if t_ is not None else None)
+    if ctor is None:
+        raise AnalysisError("Module.select no longer builds View(self, nodes, edges)")
+    for which, arg, inview in (("nodes", ctor.args[1], "_nodes_in_view"), ("edges", ctor.args[2], "_edges_in_view")):
+        subs = [x for x in arg.walk() if x.op == "ifexp" and any(b.op == "attr" and b.name == inview and _is_self(b.args[0]) for b in x.args[1:])]
+        if not subs:
+            # no expansion of 'all' at all: then 'all' reaches the view as a string; not this rule's business
+            col.unk(R, fi, f"select: only the index 'all' is replaced by every {which[:-1]} in view", f"no replacement by self.{inview} found in {arg.short(80)}", node=fi.node)
+            continue
+        seen = set()
+        for x in subs:
+            c = x.args[0]
+            if c.key() in seen:
+                continue
+            seen.add(c.key())
+            then_is_all = x.args[1].op == "attr" and x.args[1].name == inview
+            exact = then_is_all and ((c.op == "call" and c.name == "is_str_all") or
+                                     (c.op == "cmp" and c.name == "==" and any(a_.op == "const" and a_.name == "all" for a_ in c.args)))
+            sizes = T.find(c, lambda y: (y.op == "call" and y.name == "len") or (y.op == "attr" and y.name in ("size", "shape"))) is not None
+            mentions = T.find(c, lambda y: (y.op == "call" and y.name == "is_str_all") or (y.op == "const" and y.name == "all")) is not None
+            if exact:
+                col.ok(R, fi, f"select: only the index 'all' is replaced by every {which[:-1]} in view", c.short(60), node=x.node or fi.node)
+            elif sizes or not mentions or not then_is_all:
+                col.bad(R, fi, f"select: only the index 'all' is replaced by every {which[:-1]} in view",
+                        f"the given {which} are replaced by self.{inview} when `{c.short(110)}`: an index list is a list of rows, with repetitions and in its "
+                        f"own order (`select(nodes=[0, 0, 2, 2])` has four rows); only the string 'all' stands for the rows in view", node=x.node or fi.node)
+            else:
+                col.unk(R, fi, f"select: only the index 'all' is replaced by every {which[:-1]} in view", f"condition {c.short(100)}", node=x.node or fi.node)
